@@ -161,40 +161,57 @@ def compound(S, name, directed=True, min_blocks=1):
     S.assume(And(n == ends.length, n >= min_blocks))
     if directed:
         S.assume(Not(is_unstranded(strand)))
+    obj = mk_compound_obj(e, starts, ends, strand, None, name)
+    return obj, view(obj)
+
+
+_uid = [0]
+
+
+def mk_compound_obj(e, starts, ends, strand, parent, name=None, sorted_fact=True):
+    """Engine Obj of class CompoundInterval over the SLists ``starts``/``ends`` (same length term) with the class
+    invariant assumed: 0 <= s_j <= e_j, sortedness (if ``sorted_fact``), length = sum of block lengths (spec functions
+    cum / pre with their recursive axioms), start = s_0, end = e_{n-1}."""
+    import z3
+    from pyvc.values import Obj
+    if name is None:
+        _uid[0] += 1
+        name = f"ci{_uid[0]}"
+    n = starts.length
     j = z3.Int(name + "!j")
     Sa, Ea = starts.arrs[0], ends.arrs[0]
-    S.assume(z3.ForAll([j], z3.Implies(z3.And(j >= 0, j < n), z3.And(0 <= Sa[j], Sa[j] <= Ea[j]))))
-    plus = is_plus(strand)
-    S.assume(z3.ForAll([j], z3.Implies(
-        z3.And(j >= 0, j < n - 1),
-        z3.Or(Sa[j] < Sa[j + 1], z3.And(Sa[j] == Sa[j + 1], z3.If(plus, Ea[j] <= Ea[j + 1], Ea[j] >= Ea[j + 1]))))))
+    e.assume(z3.ForAll([j], z3.Implies(z3.And(j >= 0, j < n), z3.And(0 <= Sa[j], Sa[j] <= Ea[j]))))
+    plus = strand.name == "PLUS"
+    if sorted_fact:
+        e.assume(z3.ForAll([j], z3.Implies(
+            z3.And(j >= 0, j < n - 1),
+            z3.Or(Sa[j] < Sa[j + 1], z3.And(Sa[j] == Sa[j + 1], (Ea[j] <= Ea[j + 1]) if plus else (Ea[j] >= Ea[j + 1]))))))
     cum = z3.Function(name + "_cum", z3.IntSort(), z3.IntSort())
-    S.assume(cum(0) == 0)
-    S.assume(z3.ForAll([j], z3.Implies(z3.And(j >= 0, j < n), cum(j + 1) == cum(j) + Ea[j] - Sa[j]),
+    e.assume(cum(0) == 0)
+    e.assume(z3.ForAll([j], z3.Implies(z3.And(j >= 0, j < n), cum(j + 1) == cum(j) + Ea[j] - Sa[j]),
                        patterns=[cum(j + 1)]))
-    # monotonicity of the prefix sums (consequence of s_j <= e_j by induction on j; the induction step is the
-    # obligation 'lemma: prefix sums monotone' in c01_compound.py)
+    # monotonicity of the prefix sums (consequence of s_j <= e_j by induction on j)
     i2 = z3.Int(name + "!i2")
-    S.assume(z3.ForAll([j, i2], z3.Implies(z3.And(0 <= j, j <= i2, i2 <= n), cum(j) <= cum(i2)),
+    e.assume(z3.ForAll([j, i2], z3.Implies(z3.And(0 <= j, j <= i2, i2 <= n), cum(j) <= cum(i2)),
                        patterns=[z3.MultiPattern(cum(j), cum(i2))]))
     if strand.name == "MINUS":
         # prefix sums in 5'->3' order (storage order reversed): same recursive definition over ord(k) = n-1-k;
-        # both functions sum all block lengths, so pre(n) = cum(n)  (spec-function lemma, see c01_compound lemmas)
+        # both functions sum all block lengths, so pre(n) = cum(n)
         pre = z3.Function(name + "_pre", z3.IntSort(), z3.IntSort())
-        S.assume(pre(0) == 0)
-        S.assume(z3.ForAll([j], z3.Implies(z3.And(j >= 0, j < n), pre(j + 1) == pre(j) + Ea[n - 1 - j] - Sa[n - 1 - j]),
+        e.assume(pre(0) == 0)
+        e.assume(z3.ForAll([j], z3.Implies(z3.And(j >= 0, j < n), pre(j + 1) == pre(j) + Ea[n - 1 - j] - Sa[n - 1 - j]),
                            patterns=[pre(j + 1)]))
-        S.assume(z3.ForAll([j, i2], z3.Implies(z3.And(0 <= j, j <= i2, i2 <= n), pre(j) <= pre(i2)),
+        e.assume(z3.ForAll([j, i2], z3.Implies(z3.And(0 <= j, j <= i2, i2 <= n), pre(j) <= pre(i2)),
                            patterns=[z3.MultiPattern(pre(j), pre(i2))]))
-        S.assume(pre(n) == cum(n))
+        e.assume(pre(n) == cum(n))
     else:
         pre = cum
     cls = e.repo.find(COMPOUND)
-    obj = Obj(cls, dict(_starts=starts, _ends=ends, strand=strand, parent=None, _single_interval_store=None,
+    obj = Obj(cls, dict(_starts=starts, _ends=ends, strand=strand, parent=parent, _single_interval_store=None,
                         _is_overlapping=None, length=cum(n), start=Sa[0], end=Ea[n - 1]))
     obj.attrs["$cum"] = cum
     obj.attrs["$pre"] = pre
-    return obj, CompoundView(obj, cum, pre)
+    return obj
 
 
 def view(obj):
